@@ -269,7 +269,6 @@ def body_of(n, g, env, r):
 
 def lines_case(n, r, seedstr):
     g = conf.Gen(seedstr)
-    g.avoid.add("call_member")      # known finding F-60 (C01) would end these runs in a fatal error
     nb, na = r.randint(0, 2), r.randint(0, 2)
     out = []
     others = []
